@@ -57,6 +57,8 @@ pub struct NfaBuilder<L, V> {
     pub(crate) outputs: Vec<Output<V>>, // in which common parts are merged.
     pub(crate) len: usize,
     pub(crate) match_kind: MatchKind,
+    // Patterns skipped in leftmost-first construction, kept only to detect duplicates.
+    shadowed: alloc::collections::BTreeSet<Vec<L>>,
 }
 
 impl<L, V> NfaBuilder<L, V>
@@ -73,7 +75,30 @@ where
             outputs: vec![],
             len: 0,
             match_kind,
+            shadowed: alloc::collections::BTreeSet::new(),
         }
+    }
+
+    /// Checks a pattern that is never reported in leftmost-first matching because one of its
+    /// proper prefixes was registered earlier. Such a pattern is not inserted, but it must
+    /// still be rejected when it duplicates another pattern.
+    fn check_shadowed_duplicate(&mut self, pattern: &[L]) -> Result<()> {
+        let mut state_id = ROOT_STATE_ID;
+        let mut registered = true;
+        for &c in pattern {
+            if let Some(next_state_id) = self.child_id(state_id, c) {
+                state_id = next_state_id;
+            } else {
+                registered = false;
+                break;
+            }
+        }
+        let registered =
+            registered && self.states[usize::from_u32(state_id)].borrow().output.is_some();
+        if registered || !self.shadowed.insert(pattern.to_vec()) {
+            return Err(DaachorseError::duplicate_pattern(format!("{pattern:?}")));
+        }
+        Ok(())
     }
 
     #[inline(always)]
@@ -90,9 +115,12 @@ where
         for &c in pattern {
             if self.match_kind.is_leftmost_first() {
                 // If state_id has an output, the descendants will never searched.
-                let output = &self.states[usize::from_u32(state_id)].borrow().output;
-                if output.is_some() {
-                    return Ok(());
+                let has_output = self.states[usize::from_u32(state_id)]
+                    .borrow()
+                    .output
+                    .is_some();
+                if has_output {
+                    return self.check_shadowed_duplicate(pattern);
                 }
             }
 
